@@ -36,7 +36,7 @@ FL_TECH = ("explicit TLA+ spec of the flatten pipeline (Flatten.tla: ExpandShare
            "character-class model of the escaping layers (MC_Keys) exported and replayed; TLA+ predicates (FlattenProps.tla over RefSem.tla bisimulation / Swagger.tla typing) evaluated by TLC "
            "on states recorded from the real Flatten (Trace_Flatten): initial bundle, snapshot after every phase and loop round (verif hooks), rewritten document, outcome, second pass, analyzer state; "
            "step-level conformance of every recorded phase transition against the operators of Flatten.tla with logged arguments, and conformance of every logged de-duplication step "
-           "against the flatten-context model Dedup.tla (enabledness, parents, election, resulting document)")
+           "against the flatten-context model Dedup.tla (enabledness, parents, election, resulting document); C01/C04 also: the real $ref rebasing functions on every (base, ref) pair enumerated by MC_Paths, judged by TLC against Paths.tla")
 checks.update({
  "C01": dict(technique=FL_TECH + "; C01 = bisimilarity of the $ref-unfolded trees section by section and definition by definition",
    text="model_checking (trace validation): for every generated bundle of W and every option set the real Flatten is run; TLC decides SameMeaning (reachable-pairs bisimulation of the $ref-unfolded documents) for paths and every other top-level member, the shared sections (unless RemoveUnused), and every pre-existing definition, plus 'only definitions are added' and 'x-go-gen-location only on new definitions'.",
